@@ -68,7 +68,15 @@ def evaluate(name, everything, jobs):
     finally:
         sh("git -C /repo worktree remove --force %s" % wt)
         shutil.rmtree(wt, ignore_errors=True)
-    json.dump(dict(seed=name, property=prop, tier="quick", results=res), open(os.path.join(d, "detection.json"), "w"), indent=1)
+    path = os.path.join(d, "detection.json")
+    merged = {}
+    if os.path.exists(path):
+        try:
+            merged = json.load(open(path)).get("results", {})
+        except Exception:  # noqa
+            merged = {}
+    merged.update({k: v for k, v in res.items() if not k.startswith("_")})     # newer runs replace older ones per check
+    json.dump(dict(seed=name, property=prop, tier="quick", results=merged), open(path, "w"), indent=1)
     return name, prop, res
 
 
